@@ -185,8 +185,51 @@ def token_sites(c: Ctx) -> list[TokSite]:
                         cur = None
                     elif not isinstance(s, ast.Assign):
                         cur = None
+    out = _specialise_const_loops(out)
     out = _specialise_templates(c, out)
     out.sort(key=lambda t: (t.func.qual, t.lineno))
+    return out
+
+
+def _specialise_const_loops(sites: list[TokSite]) -> list[TokSite]:
+    """A site inside `for a, b, c in ((x1, y1, z1), (x2, y2, z2)):` whose kind / tag / nesting are the loop's targets is replaced by
+    one site per element of the literal sequence, with the targets substituted."""
+    out: list[TokSite] = []
+    for ts in sites:
+        f = ts.func
+        exprs = [ts.type_expr, ts.tag_expr, ts.nesting_expr] + list(ts.stores.values())
+        free = {x.id for e in exprs if e is not None for x in ast.walk(e) if isinstance(x, ast.Name)}
+        loop = None
+        q = f.module.parents.get(ts.node)
+        while q is not None and q is not f.node:
+            if isinstance(q, ast.For) and isinstance(q.iter, (ast.Tuple, ast.List)) and q.iter.elts \
+                    and {x.id for x in ast.walk(q.target) if isinstance(x, ast.Name)} & free:
+                loop = q
+                break
+            q = f.module.parents.get(q)
+        if loop is None:
+            out.append(ts)
+            continue
+        tg = loop.target.elts if isinstance(loop.target, (ast.Tuple, ast.List)) else [loop.target]
+        envs = []
+        for el in loop.iter.elts:
+            vals = el.elts if isinstance(el, (ast.Tuple, ast.List)) and len(tg) > 1 else [el]
+            if len(vals) != len(tg) or not all(isinstance(t, ast.Name) for t in tg):
+                envs = []
+                break
+            envs.append({t.id: v for t, v in zip(tg, vals)})
+        if not envs:
+            out.append(ts)
+            continue
+        for env in envs:
+            te, ge, ne = pe(ts.type_expr, env), pe(ts.tag_expr, env), pe(ts.nesting_expr, env)
+            nts = TokSite(f, ts.node, ts.via, te, ge, ne, literal_strs(te), {k: pe(v, env) for k, v in ts.stores.items()}, receiver=ts.receiver)
+            nts.orig_ids = {id(v) for v in ts.stores.values()} | getattr(ts, "orig_ids", set())
+            if "tag" in nts.stores and nts.tag_expr is None:
+                nts.tag_expr = nts.stores["tag"]
+            if "nesting" in nts.stores and nts.nesting_expr is None:
+                nts.nesting_expr = nts.stores["nesting"]
+            out.append(nts)
     return out
 
 
@@ -274,6 +317,11 @@ def _specialise_templates(c: Ctx, sites: list[TokSite]) -> list[TokSite]:
                 a = c.eff.arg_for_param(cs, f, pn)
                 if a is not None:
                     env[pn] = expand(c, cs.caller, a, cs.node) if isinstance(a, ast.Name) else a
+                    if literal_strs(env[pn]) is None and literal_ints(env[pn]) is None:
+                        # tag + "_open" with `tag = "strong" if isStrong else "em"`: single-definition locals of the caller
+                        r_ = resolve_lit(cs.caller, a)
+                        if r_ is not None and (literal_strs(r_) is not None or literal_ints(r_) is not None):
+                            env[pn] = r_
             te, ge, ne = pe(ts.type_expr, env), pe(ts.tag_expr, env), pe(ts.nesting_expr, env)
             kinds = literal_strs(te)
             if kinds is None:
